@@ -119,3 +119,43 @@ def gen_c16(y0, y1):
             except Exception:
                 ev[key] = bad
         yield ev
+
+
+def _jde_inputs(seed, n, shard, nshards):
+    """JDE in [0, 5.4e6]: day/half-day boundaries with +-ulp .. +-1 s offsets, and uniform random"""
+    import random
+    import math
+    rng = random.Random("%s/%s" % (seed, shard))
+    out = []
+    nb = n // 3
+    for _ in range(nb // 9 + 1):
+        base = float(rng.randrange(0, 5400000)) + rng.choice([0.0, 0.5])
+        for off in (0.0, 1, -1, 2, -2, 1e-6 / 86400, -1e-6 / 86400, 1.0 / 86400, -1.0 / 86400):
+            if isinstance(off, int):
+                x = base
+                for _k in range(abs(off)):
+                    x = math.nextafter(x, math.inf if off > 0 else -math.inf)
+            else:
+                x = base + off
+            if 0.0 <= x <= 5.4e6:
+                out.append(x)
+    while len(out) < n:
+        out.append(rng.uniform(0.0, 5.4e6))
+    return out[:n]
+
+
+def gen_sidereal(seed, n, shard, nshards):
+    import math
+    from pymeeus.Epoch import Epoch
+    from pymeeus.Earth import Earth
+    from pymeeus.Coordinates import true_obliquity, nutation_longitude
+    for x in _jde_inputs(seed, n, shard, nshards):
+        e = Epoch(x)
+        jde = e.jde()
+        mst = e.mean_sidereal_time()
+        mst1 = Epoch(jde + 1.0).mean_sidereal_time()
+        eps = true_obliquity(e)
+        dpsi = nutation_longitude(e)
+        ast = e.apparent_sidereal_time(eps, dpsi)
+        yield {"k": "sid", "x": jde, "jde": fx(jde), "jde1": fx(Epoch(jde + 1.0).jde()), "mst": fx(mst), "mst1": fx(mst1),
+               "ast": fx(ast), "dpsi": fx(float(dpsi)), "ceps": fx(math.cos(math.radians(float(eps))))}
